@@ -54,7 +54,7 @@ theorem extra_waiting_exactly_one (s : Layout) (hall : ∀ w ∈ s.extraWaiting,
             s0.extraWaiting.map (·.coord) = (s.extraWaiting.map (·.coord)).eraseIdx pre.length ∧
             s0.waiting = s.waiting ∧ s0.queue = s.queue ∧ s0.states = s.states ∧
             s0.actionQueue = s.actionQueue ∧
-            doAction fuel s0 a w.coord (w.delay + min (w.ticks + 1) U16_MAX) false w.layerStack = .ok (s1, cu) ∧
+            doAction fuel s0 a w.coord (min (w.delay + min (w.ticks + 1) U16_MAX) U16_MAX) false w.layerStack = .ok (s1, cu) ∧
             (s' = s1 ∨ s' = tapPost s1))) := by
   refine ⟨step1 s.queue, fun w => htStep_counted w s.queue, ?_⟩
   rcases processExtra_eq s hall with ⟨_, h2⟩ | ⟨pre, w, post, a, h1, _, h3, h4, h5⟩
